@@ -16,7 +16,13 @@ def run_demo(seed, repo):
     for f in os.listdir(seed):
         if f not in ("meta.json",) and os.path.isfile(os.path.join(seed, f)):
             shutil.copy(os.path.join(seed, f), work)
-    cmds = [c for c in meta.get("commands", []) if not re.match(r"^\s*REPO=", c)]
+    cmds = []
+    for c in meta.get("commands", []):
+        if re.match(r"^\s*REPO=", c) or re.search(r"\bgit\b.*\b(apply|checkout|stash|reset)\b", c) or re.search(r"\bpatch\b\s+-p", c):
+            continue                      # the patch is applied by this tool, in a scratch worktree only
+        c = re.sub(r"echo\s+\"?\$\?\"?", "echo exit=$?", c)
+        c = c.replace("/tmp/seed-out/%s/" % os.path.basename(os.path.dirname(seed.rstrip("/"))), "/nonexistent-seed-out/")
+        cmds.append(c)
     script = "export REPO=%s\n" % repo + "\n".join(cmds) + "\n"
     rc, out = sh(script, cwd=work, timeout=900)
     m = re.findall(r"exit=(\d+)", out)
@@ -34,8 +40,12 @@ def main():
     try:
         rc, out = sh("git -C /repo worktree add --detach %s HEAD" % wt)
         assert rc == 0, out
-        c0, o0 = run_demo(seed, "/repo")
+        clean = wt + "-clean"
+        rc, out = sh("git -C /repo worktree add --detach %s HEAD" % clean)
+        assert rc == 0, out
+        c0, o0 = run_demo(seed, clean)
         res["demo_unchanged_exit"] = c0
+        res["demo_unchanged_tail"] = o0[-200:]
         rc, out = sh("git apply %s" % os.path.join(seed, "patch.diff"), cwd=wt)
         res["patch_applies"] = (rc == 0)
         c1, o1 = run_demo(seed, wt)
@@ -51,6 +61,12 @@ def main():
             res["tests_pass"] = (rc == 0 and "FAILED" not in out)
             res["tests_tail"] = out[-300:]
     finally:
+        sh("git -C /repo worktree remove --force %s-clean" % wt)
+        shutil.rmtree(wt + "-clean", ignore_errors=True)
+        rc, out = sh("git -C /repo status --porcelain --untracked-files=no")
+        if out.strip():
+            res["REPO_WAS_TOUCHED"] = out
+            sh("git -C /repo checkout -- .")
         sh("git -C /repo worktree remove --force %s" % wt)
         shutil.rmtree(wt, ignore_errors=True)
     print(json.dumps(res, indent=1))
